@@ -35,6 +35,7 @@ func checkC20(c *Check) {
 	c20EnvCleanup(c)
 	c20MacroBudget(c)
 	c20LineBreaksAgree(c, "R6c")
+	c20EnvLast(c, "R4b")
 	_ = p
 }
 
